@@ -578,6 +578,24 @@ pub fn gen_world(rng: &mut Rng, o: &WorldOpts) -> (WorldSpec, bool) {
 }
 
 pub fn random_slices(rng: &mut Rng) -> Vec<String> {
+    if rng.chance(0.15) {
+        // disjoint character classes as siblings, some of them with a nested (shorter) slice
+        let classes = ["[a-z]", "[A-Z]", "[0-9]", "[ \\t\\n]"];
+        let mut v: Vec<String> = vec![];
+        for c in classes {
+            if rng.chance(0.8) {
+                let outer = *rng.pick(&["+", "{1,8}", "{1,12}"]);
+                v.push(format!("{c}{outer}"));
+                if rng.chance(0.5) {
+                    v.push(format!("{c}{}", rng.pick(&["{1,3}", "{1,2}", "{2,4}"])));
+                }
+            }
+        }
+        if v.len() >= 2 {
+            rng.shuffle(&mut v);
+            return v;
+        }
+    }
     // mostly short lists; some with many siblings and nested slices
     let n = if rng.chance(0.3) { rng.range(3, 7) } else { rng.range(1, 4) };
     let mut v: Vec<String> = vec![];
